@@ -312,6 +312,46 @@ RAW_OK = {  # fn name suffix -> reason the raw write is accepted there
 }
 
 
+def _is_upper_of(fn, e, hint, depth=0):
+    """e denotes the payload of the second component of the `size_hint()` call `hint`: through
+    `unwrap` / `expect`, immutable lets, `.1` or a tuple pattern"""
+    e = peel(e)
+    if depth > 8:
+        return False
+    if e.get('k') == 'MethodCall' and e.get('method') in ('unwrap', 'expect') and \
+            callee_is(e, 'Option::unwrap', 'Option::expect'):
+        return _is_upper_of(fn, e['ch'][0], hint, depth + 1)
+    if e.get('k') == 'Field':
+        return e.get('field') == '1' and peel(e['ch'][0]) is hint or \
+            (e.get('field') == '1' and _is_let_of(fn, peel(e['ch'][0]), hint))
+    if e.get('k') == 'Path' and e.get('res') == 'local':
+        for b in walk(fn.hir):
+            if b.get('k') != 'Block':
+                continue
+            for s_ in b.get('stmts', []):
+                if s_['k'] != 'Let' or 'init' not in s_:
+                    continue
+                p_ = s_['pat']
+                if p_.get('k') == 'Binding' and p_['local'] == e['local'] and not p_.get('mut'):
+                    return _is_upper_of(fn, s_['init'], hint, depth + 1)
+                if p_.get('k') == 'Tuple' and len(p_['ch']) == 2 and p_['ch'][1].get('k') == 'Binding' and \
+                        p_['ch'][1]['local'] == e['local'] and not p_['ch'][1].get('mut'):
+                    return peel(s_['init']) is hint or _is_let_of(fn, peel(s_['init']), hint)
+    return False
+
+
+def _is_let_of(fn, e, hint):
+    if e.get('k') != 'Path' or e.get('res') != 'local':
+        return False
+    for b in walk(fn.hir):
+        if b.get('k') == 'Block':
+            for s_ in b.get('stmts', []):
+                if s_['k'] == 'Let' and 'init' in s_ and s_['pat'].get('k') == 'Binding' and \
+                        s_['pat']['local'] == e['local'] and not s_['pat'].get('mut'):
+                    return peel(s_['init']) is hint
+    return False
+
+
 def check_consumers(run, F):
     n = 0
     for fn in F.fns:
@@ -330,8 +370,13 @@ def check_consumers(run, F):
         loops = [x for x in walk(fn.hir) if x.get('k') == 'For']
         setl = [x for x in walk(fn.hir) if x.get('k') == 'MethodCall' and x['method'] == 'set_len']
         writes = [x for x in walk(fn.hir) if x.get('k') == 'Call' and callee_is(x, 'ptr::write')]
+        # `p = p.add(1)` on the pointer the write goes through (whatever it is called)
+        wptr = {peel(w['ch'][1]).get('local') for w in writes if peel(w['ch'][1]).get('res') == 'local'}
         bumps = [x for x in walk(fn.hir) if x.get('k') == 'Assign' and
-                 src(x).replace(' ', '') in ('ptr=ptr.add(1)',)]
+                 peel(x['ch'][0]).get('res') == 'local' and peel(x['ch'][0]).get('local') in wptr and
+                 peel(x['ch'][1]).get('k') == 'MethodCall' and peel(x['ch'][1]).get('method') == 'add' and
+                 peel(peel(x['ch'][1])['ch'][0]).get('local') == peel(x['ch'][0]).get('local') and
+                 peel(peel(x['ch'][1])['ch'][1]).get('k') == 'Lit' and peel(peel(x['ch'][1])['ch'][1]).get('v') == '1']
         ok = len(hint) == 1 and len(cap) == 1 and len(loops) == 1 and len(setl) == 1 and \
             len(writes) == 1 and len(bumps) == 1
         why = 'hint/capacity/loop/write/bump/set_len = %d/%d/%d/%d/%d/%d' % (
@@ -342,8 +387,8 @@ def check_consumers(run, F):
             a = peel(cap[0]['ch'][1])
             b = peel(setl[0]['ch'][1])
             same = a.get('res') == 'local' and b.get('res') == 'local' and a['local'] == b['local']
-            upper = any(x.get('k') == 'Field' and x.get('field') == '1' and
-                        any(y is hint[0] for y in walk(x)) for x in walk(fn.hir))
+            # the allocation size is the second component of the hint, however the pair is taken apart
+            upper = _is_upper_of(fn, cap[0]['ch'][1], hint[0])
             order = seqno[id(hint[0])] < seqno[id(cap[0])] < seqno[id(loops[0])] < seqno[id(setl[0])]
             inloop = any(y is writes[0] for y in walk(loops[0])) and \
                 any(y is bumps[0] for y in walk(loops[0]))
